@@ -210,6 +210,7 @@ struct Gen
     int next_gate = 0;
     int handlers = 0;
     bool thorough = false;
+    bool bare_texts = false; // identity travels in the line number, texts may repeat (C02-C04)
 };
 
 Node mk(Gen &g, const char *kind, int a = 0, int b = 0)
@@ -352,6 +353,8 @@ std::vector<Op> gen_producer(Gen &g, int nmsg, bool allow_null_loc, int pause_pc
         if (!prev.empty() && g.r.chance(1, 5))
             l.s = prev;
         prev = l.s;
+        if (g.bare_texts && g.r.chance(1, 3))
+            l.c |= 4 << 16; // no unique prefix: the text may equal another message's, also another thread's
         ops.push_back(l);
     }
     return ops;
@@ -691,13 +694,13 @@ Plan gen_C11(Gen &g, Plan p)
     bool rot = mode == "fluent-rot" || mode == "oneline-rot";
     if (rot) {
         static const int sizes[] = { 0, 200, 1000, 20000, 100000 };
-        static const int counts[] = { 0, 0, 3, 5, -1 };
+        static const int counts[] = { 0, 0, 3, 5, -1, 1 };
         int opts = (int)g.r.below(8);
         int size = sizes[g.r.below(5)];
         if (size == 0 && !(opts & 3))
             opts |= 1 + (int)g.r.below(2);
         p.cfg["max_size"] = size;
-        p.cfg["max_count"] = counts[g.r.below(5)];
+        p.cfg["max_count"] = counts[g.r.below(6)];
         p.cfg["options"] = opts;
     }
     if (mode == "fluent-plain" || mode == "fluent-rot")
@@ -795,6 +798,7 @@ Plan generate(const std::string &prop, const std::string &tier, uint64_t seed)
     Gen g;
     g.r = Rng(sim::mix(seed, sim::fnv1a(prop.data(), prop.size())));
     g.thorough = tier == "thorough";
+    g.bare_texts = prop == "C02" || prop == "C03" || prop == "C04";
     if (prop == "C02")
         return gen_C02(g, p);
     if (prop == "C03")
